@@ -76,6 +76,20 @@ pub fn run(cfg: &Cfg, log: &mut Log) {
                 }
                 Err(f) => log.violation("C07", &format!("C07/serialize/{}", class), rc.name, Some(&v), format!("serialize failed: {}", fail_str(&f)), vec![]),
             }
+            if odd {
+                // only the finding itself is reported for these types
+                for e in &evs {
+                    if let Ev::Align { unit_raw, ty, .. } = e {
+                        log.count("align_events", 1);
+                        if *unit_raw > 1 && !unit_raw.is_power_of_two() {
+                            log.count("align_events_non_power_of_two_unit", 1);
+                            log.violation("C07", "C07/unit-not-power-of-two", rc.name, Some(&v),
+                                format!("align::<{}>: the alignment unit is {} (size_of of a range over a {}-byte type), which is not a power of two; padding and the address check of the ε-copy reader are then ill-defined", ty, unit_raw, unit_raw), vec![]);
+                        }
+                    }
+                }
+                continue;
+            }
             let enc = model::enc::encode(&rc.ty, &v, rc.root.type_name());
             // online trace check over the align / write_bytes events
             let mut blocks = enc.blocks.iter();
@@ -87,9 +101,7 @@ pub fn run(cfg: &Cfg, log: &mut Log) {
                         let unit = (*unit_raw).max(1);
                         let mut bad = vec![];
                         if !unit.is_power_of_two() {
-                            log.count("align_events_non_power_of_two_unit", 1);
-                            log.violation("C07", "C07/unit-not-power-of-two", rc.name, Some(&v),
-                                format!("align::<{}>: the alignment unit is {} (size_of of a range over a {}-byte type), which is not a power of two; padding and the address check of the ε-copy reader are then ill-defined", ty, unit, unit), vec![]);
+                            bad.push(format!("unit {} is not a power of two", unit));
                         } else {
                             if unit < *align_of {
                                 bad.push(format!("unit {} smaller than the native alignment {}", unit, align_of));
